@@ -28,21 +28,33 @@ def rbytes(rng, n):
 def c14(tier, seed):
     rng = random.Random(seed * 7919 + 14)
     out = []
-    for _ in range(150 if tier == "quick" else 6000):
+    NAMECH = TOKEN + ".~!#$%&'*+^|`"
+    for it in range(150 if tier == "quick" else 6000):
         nh = rng.choice([0, 1, 2, 3, 5, 50])
+        if it % 40 == 7:
+            nh = rng.choice([100, 129, 257])            # counts around powers of two
         hs = []
         for _ in range(nh):
             v = text(rng, rng.randrange(0, 40))
             if rng.random() < 0.3:
                 v = v + rng.choice([": ", ":", "=", " ", ": x: y"]) + text(rng, rng.randrange(0, 5))
-            hs.append({"n": text(rng, rng.randrange(1, 16), TOKEN), "v": v})
+            if rng.random() < 0.02:
+                v = text(rng, rng.choice([255, 256, 1024, 8193]), PRINTABLE).strip() or "v"     # long values
+            hs.append({"n": text(rng, rng.randrange(1, 16), NAMECH if rng.random() < 0.3 else TOKEN) or "x", "v": v})
             if rng.random() < 0.15:
                 # the same name again in another spelling (lookup must not depend on the spelling asked for)
                 n2 = rng.choice([str.upper, str.lower, str.swapcase, str.title])(hs[-1]["n"])
                 hs.insert(rng.randrange(len(hs) + 1), {"n": n2, "v": text(rng, 6, TOKEN)})
+        body = rbytes(rng, rng.choice([0, 1, 2, 7, 100, 2000]) if it % 50 != 9 else rng.choice([65535, 65536, 70001]))
+        if rng.random() < 0.3:
+            # the header names the library itself interprets, with values consistent with the message
+            voc = [("Content-Length", str(len(body))), ("Content-Type", rng.choice(["text/plain", "multipart/form-data; boundary=x", "application/x-www-form-urlencoded"])),
+                   ("Host", "localhost:7878"), ("Range", "bytes=0-1, 3-"), ("Origin", "https://a.example"), ("Transfer-Encoding", "identity"), ("Connection", "close")]
+            for n, v in rng.sample(voc, rng.randrange(1, 4)):
+                hs.insert(rng.randrange(len(hs) + 1), {"n": n if rng.random() < 0.7 else n.lower(), "v": v})
         out.append({"kind": "roundtrip", "method": rng.choice(["GET", "HEAD", "POST", "PUT", "DELETE", "CONNECT", "OPTIONS", "TRACE", "PATCH"]),
                     "target": "/" + text(rng, rng.randrange(0, 30), forbid=" "), "version": rng.choice(["HTTP/0.9", "HTTP/1.0", "HTTP/1.1", "HTTP/2.0"]),
-                    "headers": hs, "body": rbytes(rng, rng.choice([0, 1, 2, 7, 100, 2000]))})
+                    "headers": hs, "body": body})
     return out
 
 
@@ -53,10 +65,11 @@ def c15(tier, seed):
     for _ in range(100 if tier == "quick" else 4000):
         s = rng.choice(st)
         parts = []
-        for _ in range(rng.choice([1, 1, 2, 3, 6])):
-            b = rbytes(rng, rng.choice([0, 1, 2, 3, 50, 4096]))
-            lo = rng.randrange(0, 1000)
-            parts.append({"ct": rng.choice(["text/plain", "image/png", "application/octet-stream", "text/html"]), "lo": lo, "hi": lo + len(b), "size": 100000, "body": b})
+        for _ in range(rng.choice([1, 1, 2, 3, 6, 9, 17])):
+            b = rbytes(rng, rng.choice([0, 1, 2, 3, 50, 4096]) if rng.random() < 0.97 else rng.choice([65536, 70001]))
+            lo = rng.choice([rng.randrange(0, 1000), rng.randrange(0, 1000), 65535, 16777216, 2000000000])    # (TLC integers are 32-bit)
+            parts.append({"ct": rng.choice(["text/plain", "image/png", "application/octet-stream", "text/html", "text/plain; charset=utf-8", "Text/HTML", "application/x.y+json"]),
+                          "lo": lo, "hi": lo + len(b), "size": 2100000000, "body": b})
         hs = [{"n": "X-" + text(rng, 5, TOKEN), "v": text(rng, rng.randrange(1, 20), PRINTABLE).strip() or "v"} for _ in range(rng.randrange(0, 4))]
         out.append({"kind": "resp", "ser": rng.choice(["assoc", "method"]), "status": s[0], "phrase": s[1], "headers": hs, "parts": parts})
     return out
@@ -122,7 +135,8 @@ def c19(tier, seed):
                                 float(rng.randrange(-1000, 1000)), rng.choice([-1, 1]) * rng.random() * 10 ** rng.randrange(-12, -3)]))
 
     def s():
-        return text(rng, rng.randrange(0, 12), [c for c in PRINTABLE if c not in '"\\'])
+        n = rng.randrange(0, 12) if rng.random() < 0.97 else rng.choice([255, 256, 257, 4096, 5000])
+        return text(rng, n, [c for c in PRINTABLE if c not in '"\\'])
 
     def leaf():
         chain = [{"name": s(), "n": integer()} for _ in range(rng.choice([0, 0, 0, 1, 2, 3]))]
